@@ -134,5 +134,6 @@ func runC11(c *Check, a *Analysis) {
 			}
 		}
 	}
+	ruleCopyDestFresh(c, a, "R-COPY-DEST-FRESH")
 	ruleUseAfterRelease(c, a, "R-UAR", uarAll)
 }
